@@ -328,8 +328,9 @@ def run(chk):
               f"{E} | fixed sections spelled alike on both sides", E, f"read {sorted(s_ for s_ in secs if s_)}, written {sorted(s_ for s_ in wsecs if s_)}")
     # comments
     cm = [c for c in ast.walk(ex.node) if isinstance(c, ast.Call) and dotted(c.func) == "eds.set" and folder.try_fold(c.args[0], sc, None) == "Comments"]
-    keys = {src(c.args[1]) for c in cm}
-    chk.check(keys == {"f'Line{i}'", "'Lines'"}, "R7", f"{E}:export_eds | comment lines", ex.loc(), f"{keys}")
+    import re as _re2
+    keys = {_re2.sub(r"\{[A-Za-z_][A-Za-z_0-9]*\}", "{_}", src(c.args[1])) for c in cm}       # the counter may have any name
+    chk.check(keys == {"f'Line{_}'", "'Lines'"}, "R7", f"{E}:export_eds | comment lines", ex.loc(), f"{keys}")
     rk = {src(c.args[1]) for c in ast.walk(ie.node) if isinstance(c, ast.Call) and dotted(c.func) == "eds.get" and c.args and folder.try_fold(c.args[0], sc, None) == "Comments"}
     chk.check(rk == {"f'Line{line}'", "'Lines'"}, "R7", f"{E}:import_eds | comment lines", ie.loc(), f"{rk}")
 
@@ -340,7 +341,17 @@ def run(chk):
         line_set = [c for c in cm if any(c is x for x in ast.walk(l))]
         if isinstance(l.iter, ast.Call) and dotted(l.iter.func) == "enumerate":
             st_ = l.iter.args[1] if len(l.iter.args) > 1 else next((k.value for k in l.iter.keywords if k.arg == "start"), None)
-            chk.check(st_ is not None and folder.try_fold(st_, sc, None) == 1 and src(l.iter.args[0]) == "od.comments.splitlines()", "R7", f"{E}:export_eds | comment lines numbered from 1", ex.loc(l), src(l.iter))
+            it0 = l.iter.args[0]
+            if isinstance(it0, ast.Name):
+                ds_ = [n for n in own_nodes(ex.node) if isinstance(n, ast.Assign) and len(n.targets) == 1 and src(n.targets[0]) == it0.id]
+                it0 = ds_[0].value if len(ds_) == 1 else it0
+            chk.check(st_ is not None and folder.try_fold(st_, sc, None) == 1 and src(it0) == "od.comments.splitlines()", "R7", f"{E}:export_eds | comment lines numbered from 1", ex.loc(l), src(l.iter))
+            # `Lines` is the number of lines written: len() of the same sequence, or the last counter value
+            tot = [c for c in cm if src(c.args[1]) == "'Lines'"]
+            for c in tot:
+                v_ = c.args[2]
+                ok_ = isinstance(v_, ast.Call) and dotted(v_.func) == "len" and (src(v_.args[0]) == src(l.iter.args[0]) or src(v_.args[0]) == "od.comments.splitlines()")
+                chk.check(ok_, "R7", f"{E}:export_eds | Lines = number of comment lines", ex.loc(c), f"Lines written as {src(v_)}")
             continue
         chk.check(src(l.iter) == "od.comments.splitlines()", "R7", f"{E}:export_eds | every line of od.comments written", ex.loc(l), src(l.iter))
         incs = [n for n in l.body if isinstance(n, ast.AugAssign) and src(n.target) == "i" and isinstance(n.op, ast.Add) and folder.try_fold(n.value, sc, None) == 1]
